@@ -164,13 +164,38 @@ class FaultEngine(SingleBase):
             pre = mdl.clone()
             pre_obs = observe_all(w)
             kinds = seam.FAULT_KINDS_CORE | seam.FAULT_KINDS_EXT if fspec.get("kinds") == "ext" else seam.FAULT_KINDS_CORE
+            if fspec.get("exclude"):
+                kinds = kinds - frozenset(fspec["exclude"])
             pers = fspec.get("persistent") or False
             fp = seam.FaultPlan(fspec["index"], ERRNOS[fspec.get("errno", "EIO")], pers, kinds)
             w.run.fault = fp
             mark = len(w.run.log)
+            ob = None
+            if prog.get("atom"):
+                # C09 also holds while a call fails part-way: the invariant monitor runs during the faulted call
+                cids = [mdl.cid_of(c) for c in w.contents] + [mdl.resolve_cid(["x", k]) for k in range(3)]
+                cids += [c.upper() for c in cids]
+                ob = AtomObserver(w, w.mcontents, cids, mdl.algo)
+                with seam.passthrough():
+                    ob.check(None)
+                w.run.observers.append(ob)
             out, extra = w.exec_op(call)
             fp.clear()
             w.run.fault = None
+            if ob is not None:
+                w.run.observers.remove(ob)
+                with seam.passthrough():
+                    if ob.violation is None:
+                        ob.check(None)
+                res.stats["probes"] = {"observation_points": ob.points}
+                if ob.violation is not None and fp.fired is not None:
+                    self.v({"C09"}, "atomicity", "atom-under-fault:%s:%s" % (ob.violation["kind"], call["op"]),
+                           {"violation": ob.violation, "call": call, "setup": prog.get("setup", []),
+                            "fault_site": {"kind": fp.fired.kind, "cls": fp.fired.cls, "errno": fspec.get("errno", "EIO"),
+                                           "persistent": fspec.get("persistent") or False}, "knobs": prog.get("knobs")})
+                    res.stats["sites"] = fp.count
+                    res.stats["faults"] = {"%s:%s" % (fp.fired.kind, fspec.get("errno", "EIO")): fp.fired_n}
+                    return
             res.stats["sites"] = fp.count
             res.flags.add("call:" + call["op"])
             if fp.fired is None:
@@ -491,6 +516,7 @@ class CrashEngine(SingleBase):
         m = w._m()
         s = set(m.cid_of(c) for c in w.contents)
         s.update(m.resolve_cid(["x", k]) for k in range(3))
+        s.update([c.upper() for c in s])  # tag_object takes the cid as the caller spells it
         return s
 
 
